@@ -26,7 +26,8 @@ RULE = (
     'the stated precedence cast to the dtype; same class, dtypes, variable order, lags/leads, attributes; original snapshot '
     'unchanged; no shared mutable object (ids walked, then confirmed by mutation); KeyError for unknown fills only under '
     'strict. Non-trivial: partial overlap that is not a pure shift, or a repeated label, or a non-float dtype gets a new '
-    'period. Distinct = distinct case JSON.'
+    'period. Old spans with a repeated label (phase repeated-old-labels): the call refuses or each overlapping period holds '
+    'the value of one of the equally labelled old positions. Distinct = distinct case JSON.'
 )
 ASSUMPTIONS = ['a fill value that cannot be converted to a series dtype (e.g. "zz" for an int series) may raise: nothing is asserted then',
                'fixed-width strings hold the fill cast to the creation dtype']
@@ -349,10 +350,79 @@ def strategy():
     return cases()
 
 
+# --- old spans with a repeated label (added after seeded change C12-t) --------------------------------------------------------
+def _rep_span(flavour, labs):
+    import pandas as pd
+    if flavour == 'list':
+        return list(labs)
+    if flavour == 'np':
+        return np.array(labs)
+    return pd.Index(labs)
+
+
+def check_repeated_old(case):
+    """Old span with a repeated label. The statement does not say WHICH of the equally labelled old periods supplies the
+    value, and the pinned tree refuses some of these calls (NumPy / pandas lookups that are not a single position), so the
+    oracle is: the call either refuses (raises, original untouched) or returns an object in which every new period whose
+    label occurs in the old span holds the old value of ONE of the positions carrying that label, and every other period
+    holds the fill; never a fill for a label that is present, never an old value for a label that is absent."""
+    old_labels = [(_STR[x] if case['str'] else x) for x in case['old']]
+    new_labels = [(_STR[x] if case['str'] else x) for x in case['new']]
+    res = Result(classes=['old:' + case['flavour'], 'str' if case['str'] else 'int'])
+    n = len(old_labels)
+    obj = VectorContainer(_rep_span(case['flavour'], old_labels))
+    obj.add_variable('X', np.arange(1.0, n + 1) * 10)
+    obj.add_variable('N', list(range(1, n + 1)), dtype=int)
+    before = snapshot.snapshot(obj)
+    out = attempt(obj.reindex, _rep_span(case['flavour'], new_labels))
+    detail = f'container old={old_labels!r} new={new_labels!r} flavour={case["flavour"]}'
+    d = snapshot.first_diff_key(before, snapshot.snapshot(obj))
+    if d:
+        res.fail(f'original-changed/{d.split("/")[0]}', f'{detail}: the original changed at {d}')
+    hits = [[i for i, x in enumerate(old_labels) if x == lab] for lab in new_labels]
+    res.nontrivial = any(len(h) > 1 for h in hits)
+    if not out.ok:
+        res.tag('refused')
+        if not any(len(h) > 1 for h in hits):
+            # no requested label is ambiguous: the ordinary statement applies, the call has to succeed
+            res.fail(f'repeated-old/raised-{out.exc_name}/{case["flavour"]}', f'{detail}: {out!r}')
+        return res
+    new = out.value
+    for nm, fill in (('X', float('nan')), ('N', 0)):
+        got = new[nm].tolist()
+        if len(got) != len(new_labels):
+            res.fail('repeated-old/shape', f'{detail}: {nm} has {len(got)} cells')
+            continue
+        for i, h in enumerate(hits):
+            allowed = [obj[nm][j].item() for j in h] if h else [fill]
+            if not any(same_value(got[i], a) for a in allowed):
+                res.fail(f'repeated-old/cell/{"overlap" if h else "fill"}/{case["flavour"]}',
+                         f'{detail}: {nm}[{i}] (label {new_labels[i]!r}) = {got[i]!r}, allowed {allowed!r}')
+                break
+    return res
+
+
+_STR = {0: 'z', 1: 'a', 2: 'b', 3: 'c', 4: 'd', 5: 'y', 6: 'x'}
+
+
+def gen_repeated_old():
+    import itertools
+    olds = [o for m in (2, 3, 4) for o in itertools.product((1, 2, 3), repeat=m) if len(set(o)) < len(o)]
+    news = [(1, 2, 3, 4), (0, 1, 3), (2, 2), (5, 6), (2,), (3, 2, 1), (1,), ()]
+    for flavour in ('list', 'np', 'pd'):
+        for is_str in (False, True):
+            for o in olds:
+                for nw in news:
+                    yield {'flavour': flavour, 'str': is_str, 'old': list(o), 'new': list(nw)}
+
+
 def phases(tier):
     quick = tier == 'quick'
     return [
         Phase('span-pairs', check_case, gen=gen_pairs(3 if quick else 5), exhaustive=False,
               note='fixed family of new spans per old span; fill sets cycled'),
         Phase('random', check_case, strategy=strategy, examples=8000 if quick else 200000),
+        Phase('repeated-old-labels', check_repeated_old, gen=gen_repeated_old, exhaustive=True,
+              note='old spans of 2-4 labels over {1,2,3} with at least one repeat (list / NumPy / pandas Index, int and str '
+                   'labels) x 8 new spans; refuse-or-one-of-the-old-values oracle'),
     ]
